@@ -168,3 +168,71 @@ func firstLine(s string) string {
 	}
 	return s
 }
+
+// sensitivity replays the seeded mutants of a property against the current tree (thorough tier): every mutant
+// that still applies and type-checks must be reported by one of its expected rules, every benign edit must stay
+// silent. It checks the checker; the only way it changes the verdict is when a rule has gone blind.
+func sensitivity(c *eng.Ctx, repo, verif, prop string, known []eng.KnownFinding) {
+	r := c.Rule(prop+".SENS", "sensitivity replay", "every applicable seeded mutant of this property is reported by an expected rule; every behaviour-preserving edit stays silent", 0)
+	ms, err := loadMutants(verif, prop)
+	if err != nil {
+		r.Unknown("mutants/"+prop+".json", 0, err.Error())
+		return
+	}
+	benign, err := loadMutants(verif, "benign")
+	if err != nil {
+		r.Unknown("mutants/benign.json", 0, err.Error())
+		return
+	}
+	type job struct {
+		m      Mutant
+		benign bool
+	}
+	var jobs []job
+	for _, m := range ms {
+		jobs = append(jobs, job{m, false})
+	}
+	for _, m := range benign {
+		m.Expect = nil
+		jobs = append(jobs, job{m, true})
+	}
+	results := make([]mutantResult, len(jobs))
+	sem := make(chan struct{}, 4)
+	done := make(chan int)
+	for i := range jobs {
+		go func(i int) {
+			sem <- struct{}{}
+			results[i] = runMutant(repo, verif, prop, known, jobs[i].m)
+			<-sem
+			done <- i
+		}(i)
+	}
+	for range jobs {
+		<-done
+	}
+	counts := map[string]int{}
+	var list []mutantResult
+	for i, res := range results {
+		counts[res.Status]++
+		list = append(list, res)
+		name := "mutant:" + res.Name
+		if jobs[i].benign {
+			name = "benign:" + res.Name
+		}
+		switch res.Status {
+		case "detected":
+			r.Ok(name, 0, fmt.Sprintf("reported by %v", res.Reported))
+		case "silent":
+			r.Ok(name, 0, "behaviour-preserving edit: no report")
+		case "missed":
+			r.Bad(name, 0, fmt.Sprintf("seeded fault not reported by %v (reported: %v): the rule has gone blind", res.Expected, res.Reported))
+		case "false-alarm":
+			r.Bad(name, 0, "behaviour-preserving edit raised an alarm: "+res.Detail)
+		case "invalid":
+			r.Unknown(name, 0, res.Detail)
+		case "skipped":
+			c.Notes = append(c.Notes, "mutant skipped: "+res.Name+": "+res.Detail)
+		}
+	}
+	c.Extra["mutants"] = map[string]any{"applied": len(jobs) - counts["skipped"], "detected": counts["detected"], "silent_benign": counts["silent"], "skipped": counts["skipped"], "missed": counts["missed"], "false_alarms": counts["false-alarm"], "results": list}
+}
